@@ -25,6 +25,7 @@ func init() {
 			{ID: "C18.R5", Floor: 5, Doc: "lz4 length-prefix agreement between Encode and Decode; no multiplication of lengths in 32-bit types", Run: c18r5},
 			{ID: "C18.R6", Floor: 1, Doc: "finish(): on every path that returns success the header announces compression exactly when the body was replaced by the compressor output", Run: c18r6},
 			{ID: "C18.R7", Floor: 1, Doc: "finish(): the length patched into the header is computed from the buffer in its final (compressed) form", Run: finishLength},
+			{ID: "C18.R9", Floor: 1, Doc: "every framer of a connection is built with the negotiated compressor (the Conn's field), never with the configured one", Run: c18FramerNegotiated},
 			{ID: "C18.R8", Floor: 1, Doc: "the error of reading / decompressing a frame body is the one handed on with the frame: no shadowed or overwritten error in recv, readFrame, finish and their helpers", Run: c18r8},
 		},
 		NeedsLZ4: true,
